@@ -106,7 +106,6 @@ func leanInt(i int64) string {
 	return fmt.Sprint(i)
 }
 
-func lowerFirst(s string) string { return strings.ToLower(s[:1]) + s[1:] }
 
 // mapStmts rewrites a statement list recursively (blocks, if bodies and else branches); f returns (replacement, true) to
 // replace a statement (nil replacement = drop) or (_, false) to keep it and descend.
